@@ -395,6 +395,48 @@ fn bursts(opts: &Opts, rep: &mut Report) {
     }
 }
 
+/// Constant and near-constant bursts of awkward values and lengths: the mean of n
+/// copies of c is not always c in f32, and sums can overflow.
+fn constant_bursts(opts: &Opts, rep: &mut Report, rng: &mut Rng) {
+    let values = opts.budget(16 * 150, 16 * 5000);
+    for which in ["Midpointer", "Wpcr"] {
+        let (w, r) = rustradio::stream::new_nocopy_stream::<Vec<f32>>();
+        let mut blk: Box<dyn Block> = if which == "Midpointer" {
+            let (b, o) = Midpointer::new(r);
+            std::mem::forget(o);
+            Box::new(b)
+        } else {
+            let (b, o) = Wpcr::new(r);
+            std::mem::forget(o);
+            Box::new(b)
+        };
+        rep.eval();
+        'outer: for k in 0..values {
+            let c = match k % 6 {
+                0 => [0.1f32, 0.2, 0.3, 0.6, 0.7, 0.9, 1.1, 1e-3, 3.3e7][(k / 6 % 9) as usize],
+                1 => f32::MIN,
+                2 => f32::MAX,
+                3 => -(rng.f32_unit().abs() + 1e-3),
+                4 => special_f32(rng),
+                _ => rng.f32_unit() * 10.0,
+            };
+            for n in 1..=40usize {
+                let mut b = vec![c; n];
+                if k % 5 == 4 && n > 2 {
+                    b[rng.below(n)] = special_f32(rng); // near-constant
+                }
+                rep.distinct(hmix(fnv_str(which), hmix(c.to_bits() as u64, n as u64)));
+                rep.count(&format!("inputs:{which}(constant bursts)"), 1);
+                w.push(b.clone(), &[]);
+                if let Err(p) = catch(|| blk.work().map(|_| ())) {
+                    rep.violation(format!("C15|{which}(burst)|panic|{}", sig_of_msg(&p)), format!("burst of {n} x {c:e}: {p}"), json!({"part": "constant-burst", "block": which, "value_bits": c.to_bits(), "n": n}));
+                    break 'outer;
+                }
+            }
+        }
+    }
+}
+
 fn packets(rep: &mut Report, rng: &mut Rng) {
     // packets of length 0..8 (any content) through VecToStream on a one-page stream
     rec::stream_size(rec::PAGE);
@@ -436,6 +478,7 @@ pub fn main(opts: &Opts) -> Report {
     }
     sigmf_inputs(opts, &mut rep, &mut rng);
     bursts(opts, &mut rep);
+    constant_bursts(opts, &mut rep, &mut rng);
     packets(&mut rep, &mut rng);
     let _ = before;
     rep.sample(json!({"targets": rep.counters.keys().filter(|k| k.starts_with("inputs:")).collect::<Vec<_>>()}));
